@@ -46,6 +46,15 @@ type acqRec struct {
 
 var poolacqs []acqRec
 
+// a mutex taken by Lock()/RLock() and still held when the function returns, with no deferred Unlock registered for it: the
+// next acquisition waits for ever
+type leakRec struct {
+	fn, lock string
+	line     int
+}
+
+var lockleaks []leakRec
+
 func sortedSet(m map[string]bool) []string {
 	var hs []string
 	for k := range m {
@@ -60,6 +69,19 @@ type lockWalker struct {
 	file, fn string
 	recv     string
 	out      *[]access
+	deferred map[string]bool // mutexes with a deferred Unlock in this function
+	inLit    int             // depth of function literals (their returns do not leave the function)
+}
+
+func (w *lockWalker) leakCheck(held map[string]bool, line int) {
+	if w.inLit > 0 {
+		return
+	}
+	for _, k := range sortedSet(held) {
+		if !w.deferred[k] {
+			lockleaks = append(lockleaks, leakRec{fn: w.fn, lock: k, line: line})
+		}
+	}
 }
 
 // tracked state: returns a canonical name for an expression, or "" (receiver names are normalised to "R")
@@ -240,22 +262,36 @@ func (w *lockWalker) block(list []ast.Stmt, held map[string]bool, inGo bool) (ma
 		case *ast.DeferStmt:
 			c := strings.ReplaceAll(w.x.src(t.Call), " ", "")
 			if strings.HasSuffix(c, ".Unlock()") || strings.HasSuffix(c, ".RUnlock()") {
+				if w.deferred == nil {
+					w.deferred = map[string]bool{}
+				}
+				if strings.HasSuffix(c, ".RUnlock()") {
+					w.deferred[w.normLock(strings.TrimSuffix(c, ".RUnlock()")+"#r")] = true
+				} else {
+					w.deferred[w.normLock(strings.TrimSuffix(c, ".Unlock()"))] = true
+				}
 				continue // held until the end of the function
 			}
 			if fl, ok := t.Call.Fun.(*ast.FuncLit); ok {
+				w.inLit++
 				w.block(fl.Body.List, held, inGo)
+				w.inLit--
 				continue
 			}
 			w.reads(t.Call, held, inGo)
 		case *ast.GoStmt:
 			if fl, ok := t.Call.Fun.(*ast.FuncLit); ok {
+				w.inLit++
 				w.block(fl.Body.List, map[string]bool{}, true)
+				w.inLit--
 			}
 		case *ast.AssignStmt:
 			for _, r := range t.Rhs {
 				w.reads(r, held, inGo)
 				if fl, ok := r.(*ast.FuncLit); ok {
+					w.inLit++
 					w.block(fl.Body.List, held, inGo)
+					w.inLit--
 				}
 			}
 			for _, l := range t.Lhs {
@@ -329,6 +365,7 @@ func (w *lockWalker) block(list []ast.Stmt, held map[string]bool, inGo bool) (ma
 			for _, r := range t.Results {
 				w.reads(r, held, inGo)
 			}
+			w.leakCheck(held, w.x.fset.Position(t.Pos()).Line)
 			return held, false
 		case *ast.IncDecStmt:
 			w.lhs(t.X, held, inGo)
@@ -371,7 +408,9 @@ func xlateLocks(args []string) error {
 			}
 			held := map[string]bool{}
 			// deferred unlocks registered at the head keep the lock for the whole body
-			w.block(fd.Body.List, held, false)
+			if end, falls := w.block(fd.Body.List, held, false); falls {
+				w.leakCheck(end, fset.Position(fd.Body.Rbrace).Line)
+			}
 		}
 	}
 	o := os.Stdout
@@ -419,6 +458,15 @@ func xlateLocks(args []string) error {
 			sep = ""
 		}
 		fmt.Fprintf(o, "  mkCall %s %s [%s]%s\n", coqStr(c.caller), coqStr(c.callee), strs(c.held), sep)
+	}
+	fmt.Fprintln(o, "].")
+	fmt.Fprintln(o, "Definition gen_lockleaks : list (string * string * nat) := [")
+	for i, l := range lockleaks {
+		sep := ";"
+		if i == len(lockleaks)-1 {
+			sep = ""
+		}
+		fmt.Fprintf(o, "  (%s, %s, %d)%s\n", coqStr(l.fn), coqStr(l.lock), l.line, sep)
 	}
 	fmt.Fprintln(o, "].")
 	fmt.Fprintln(o, "Definition gen_poolacqs : list acq := [")
